@@ -204,6 +204,9 @@ structure Crypto where
   /-- JWS signing input (header.payload) of a JWT document -/
   jwtInput : String → Bytes
   sigOK : Key → Bytes → Sig → Bool
+  /-- kind of a public key as crypto/jwx.AlgorithmFitsKey sees it: "P-256", "P-384", "P-521", "Ed25519" (of the right length), or
+      anything else (RSA, other curves) -/
+  keyKind : Key → String := fun _ => "P-256"
 
 /-- to-be-verified bytes of a linked-data proof: digest(canonical proof options) ‖ digest(canonical document) -/
 def tbs (P : Crypto) (p : Proof) (doc : Bytes) : Bytes := P.digest (P.canonProof p.options) ++ P.digest doc
@@ -404,6 +407,22 @@ def jwtAlgSupported (cfg : Cfg) : Check (Option JwtInfo) :=
   { name := "jwt:alg-supported", run := fun j => match j with
       | some j => guard (cfg.supportedAlgs.contains j.alg) "jwt-alg"
       | none => .pass }
+/-- crypto/jwx.AlgorithmFitsKey (repo commit 7cefebb): an ECDSA algorithm must be the one of the key's curve, an Ed25519 key fits
+    EdDSA only; other key types are not restricted here -/
+def algorithmFitsKey (alg kind : String) : Bool :=
+  if kind == "P-256" then alg == "ES256"
+  else if kind == "P-384" then alg == "ES384"
+  else if kind == "P-521" then alg == "ES512"
+  else if kind == "Ed25519" then alg == "EdDSA"
+  else true
+
+def jwtAlgFitsKey (P : Crypto) (E : Env) (at_ : Option Time) (issuer : String) : Check (Option JwtInfo) :=
+  { name := "jwt:alg-fits-key", run := fun j => match j with
+      | some j => match resolveKeyByID E at_ (jwtKeyID j.kid issuer) with
+        | some k => guard (algorithmFitsKey j.alg (P.keyKind k)) "jwt-alg-key"
+        | none => .pass
+      | none => .pass }
+
 def jwtSignature (P : Crypto) (E : Env) (at_ : Option Time) (issuer : String) (raw : String) : Check (Option JwtInfo) :=
   { name := "jwt:signature", run := fun j => match j with
       | some j => match resolveKeyByID E at_ (jwtKeyID j.kid issuer) with
@@ -420,7 +439,8 @@ def jwtKidOfIssuer (issuer : String) : Check (Option JwtInfo) :=
       | none => .pass }
 
 def jwtChecks (cfg : Cfg) (P : Crypto) (E : Env) (at_ : Option Time) (issuer : String) (raw : String) : List (Check (Option JwtInfo)) :=
-  [ jwtParses, jwtKeyResolves E at_ issuer, jwtAlgSupported cfg, jwtSignature P E at_ issuer raw, jwtClock E at_, jwtKidOfIssuer issuer ]
+  [ jwtParses, jwtKeyResolves E at_ issuer, jwtAlgSupported cfg, jwtAlgFitsKey P E at_ issuer, jwtSignature P E at_ issuer raw, jwtClock E at_,
+    jwtKidOfIssuer issuer ]
 
 /-! ### Verify (verifier.go) -/
 
